@@ -254,6 +254,34 @@ func runCheck(id, tier, replay string) int {
 	// translator validation + violation replay: concrete interpreter run and native run
 	validated := 0
 	var replayNotes []string
+	// a model may rest on the slack of an over-approximation (float enclosures): when the first
+	// model of a violated obligation does not fail under concrete interpretation, try the
+	// models of the other violating paths and report the first that does
+	for _, v := range viols {
+		if len(v.ob.Alts) == 0 || v.ob.Model == nil {
+			continue
+		}
+		fn := ld.lookup(v.h.Pkg, v.h.Func)
+		fails := func(m map[string]string, sched []int) bool {
+			p := runPathSched(ld.prog, fn, ExploreConfig{StepBudget: 20_000_000}, nil, nil, m, sched)
+			for _, ob := range p.obligations {
+				if ob.Result == "sat" && ob.Label == v.ob.Label {
+					return true
+				}
+			}
+			return false
+		}
+		if fails(v.ob.Model, v.ob.Sched) {
+			continue
+		}
+		for _, a := range v.ob.Alts {
+			if fails(a.Model, a.Sched) {
+				v.ob.Model, v.ob.Decisions, v.ob.Sched = a.Model, a.Decisions, a.Sched
+				replayNotes = append(replayNotes, fmt.Sprintf("%q: the first solver model did not fail under concrete interpretation; reporting the model of another violating path", v.ob.Label))
+				break
+			}
+		}
+	}
 	for _, v := range viols {
 		replayCases = append(replayCases, ReplayCase{Harness: v.h.Func, Pkg: v.h.Pkg, Label: v.ob.Label, Kind: v.ob.Kind, Vector: v.ob.Model, Sched: v.ob.Sched, Expect: "fail:" + v.ob.Label})
 	}
